@@ -324,3 +324,13 @@ func TestC19Sweep(t *testing.T) {
 	}
 	enumerate(t, "C19", cases, checkC19)
 }
+
+// TestC19FirstCall runs in a process without the hostile prelude: the refused constructor arguments are the very first
+// library calls of the process (a constructor that memoises must not let an empty cache answer them).
+func TestC19FirstCall(t *testing.T) {
+	var cases []c19Case
+	for _, a := range []int{0, 1, -1, 1<<27 + 1, 0, 1, 2, 0} {
+		cases = append(cases, c19Case{Kind: "new", Arg: a})
+	}
+	enumerate(t, "C19", cases, checkC19)
+}
